@@ -17,6 +17,7 @@ ops
   `token HEX`              answer `<ok|err> <ID>` | `panic`          (ParseFeatureIDToken of any token)
   `less ID ID ID`          answer 7 bits `ab ba bc cb ac ca aa`
   `compact [nshex…] ID ID` answer `<encA> <encB> <keyA> <keyB> <compactLess> <Less>` | `panic`
+  `posting [nshex…] [ID…]` answer `[ID…]` | `panic`                  (IDs sorted by compact.FeatureIDs, written by PostingList.Fill/Marshal, read by compact.Iterator)
   `postcode HEX`           answer `<ID> <hex|none>`                  (PointIDFromGBPostcode, PostcodeFromPointID of it)
   `pcid ID`                answer `<hex|none>`                       (PostcodeFromPointID)
   `ons HEX YEAR TYPE`      answer `<ID> <hex code|none> <year|->`    (FeatureIDFromUKONSCode, UKONSCodeFromFeatureID of it)
@@ -75,6 +76,16 @@ def validONSCodeB (code : Bytes) (year : Int) : Bool :=
   | letter :: digits =>
     letter < 128 && letter ≠ 47 && digits.length == 8 && digits.all isDigit && 1900 ≤ year && year ≤ 2155
   | [] => false
+
+/-- insertion into a list kept in `Less` order -/
+def insertBy (x : FeatureID) : List FeatureID → List FeatureID
+  | [] => [x]
+  | y :: ys => if less x y then x :: y :: ys else y :: insertBy x ys
+
+/-- strictly ascending by `Less` -/
+def ascending : List FeatureID → Bool
+  | a :: b :: rest => less a b && ascending (b :: rest)
+  | _ => true
 
 def optBytes : Option Bytes → String
   | some b => renderBytes b
@@ -184,6 +195,29 @@ def step (_ : Unit) (op impl : String) : Unit × Verdict :=
               | _ => false
             judge impl m holds "compact-order-agrees"
           | _, _, _ => .bad
+        | _, _ => .bad
+      | _ => .bad
+    | "posting" :: _ =>
+      -- `posting [ns …] [id …]`: the IDs in the order a real posting list hands them out
+      match op.splitOn "]" with
+      | [l1, l2, _] =>
+        match parseBracket (sdrop l1 8 ++ "]"), parseBracket (strim l2 ++ "]") with
+        | some nsw, some idw =>
+          match nsw.mapM parseBytes, idw.mapM parseID with
+          | some _, some ids =>
+            let sorted := ids.foldl (fun acc x => insertBy x acc) []
+            let m := renderList (sorted.map renderID)
+            -- the property on the implementation's answer: it is the input, each ID once, in `Less` order
+            let holds :=
+              match parseBracket impl with
+              | some ws =>
+                match ws.mapM parseID with
+                | some out =>
+                  out.length == ids.length && ids.all (out.contains ·) && ascending out
+                | none => false
+              | none => false
+            judge impl m holds "posting-order-is-less"
+          | _, _ => .bad
         | _, _ => .bad
       | _ => .bad
     | ["postcode", h] =>
